@@ -12,7 +12,7 @@ PROP = "C04"
 MODULES = ["Curtsies.Properties.C04", "Curtsies.Properties.C04Text"]
 RULE = ("exhaustive single assignments on a 2x3 array (4 initial contents with row lengths (0,0),(1,3),(3,2),(2,0)) over "
         "every region 0<=r0<=r1<=3, 0<=c0<=c1<=3 and every tuple of block-row lengths 0..4 with the right row count, plus "
-        "wrong row counts, int subscripts a[r,c]='x', FSArray blocks, rows made of double-width / combining / control characters; seeded random histories of 1..7 operations "
+        "wrong row counts, int subscripts a[r,c]='x', FSArray blocks, rows made of double-width / combining / control characters, rows and block rows with REPEATED equal runs; seeded random histories of 1..7 operations "
         "(region/int/row-slice assignments, region and row reads) on shapes {0,1,2,3}x{0,1,3,4} with 4 constructor "
         "formatting variants, blocks as lists of str/FmtStr (mixed), as FSArray and as str; fsarray() over lists of <=3 "
         "items with width omitted / fitting / too small and formatting args. non-trivial = distinct histories in which "
@@ -749,6 +749,18 @@ def mk_cases(ctx):
                 cases.append(dict(kind="hist", nr=2, nc=3, fa=0,
                                   ops=wide_pre + [dict(o="S", r=("s", r0, r1), c=("s", c0, c1), v=dict(k="list", items=items)),
                                                   dict(o="G", r=("s", 0, 3), c=("s", 0, 3))]))
+                n0 += 1
+    # rows and block rows whose runs REPEAT (equal text and attributes at different offsets): boundaries go by position
+    rep_pre = [dict(o="S", r=("s", 0, 2), c=("s", 0, 4),
+                    v=dict(k="list", items=[("f", [("a", {"fg": 34}), ("-", {}), ("a", {"fg": 34}), ("-", {})]),
+                                            ("f", [("b", {}), ("b", {}), ("", {}), ("b", {})])]))]
+    for r0, r1, c0, c1 in itertools.product(range(0, 3), range(0, 4), range(0, 5), range(0, 5)):
+        if r0 <= r1 and c0 <= c1:
+            for n in sorted({0, max(0, c1 - c0 - 1), c1 - c0, c1 - c0 + 1}):
+                items = [("f", [("X", {"fg": 34})] * n) for _ in range(r1 - r0)]
+                cases.append(dict(kind="hist", nr=2, nc=4, fa=0,
+                                  ops=rep_pre + [dict(o="S", r=("s", r0, r1), c=("s", c0, c1), v=dict(k="list", items=items)),
+                                                 dict(o="G", r=("s", 0, 3), c=("s", 0, 4))]))
                 n0 += 1
     # reads with every spelling of the column bounds (None, negative, past the end) on rows shorter than the width
     for (l0, l1) in ((1, 3), (3, 2), (2, 0)):
